@@ -344,8 +344,8 @@ var extrasWriters = map[string]string{
 	"ClientImpl.prepareCall/Request.Extra/method SetTraceContext":               "context-derived value, only when the caller did not set one (extras/client-injection-keeps-caller-value)",
 	"HandlerContext.ForwardAndFlush/Request.Extra/init":                         "proxy forwarding builds a new Request from the parsed hctx.RequestExtra verbatim",
 	"HandlerContext.ParseInvokeReq/HandlerContext.RequestExtra/method ReadTL1":  "the decode itself",
-	"HandlerContext.ParseInvokeReq/handlerContextFields.actorID/address taken":        "the decode itself (LongRead into hctx.actorID)",
-	"HandlerContext.ParseInvokeReq/handlerContextFields.actorID/assign =":             "the decode itself (from RpcDestActor.ActorId)",
+	"HandlerContext.ParseInvokeReq/handlerContextFields.actorID/address taken":  "the decode itself (LongRead into hctx.actorID)",
+	"HandlerContext.ParseInvokeReq/handlerContextFields.actorID/assign =":       "the decode itself (from RpcDestActor.ActorId)",
 	"HandlerContext.prepareResponseBody/HandlerContext.ResponseExtra/assign &=": "documented: only the fields the client asked for (request extra flags) are returned",
 	"clientConn.finishCall/Response.Extra/address taken":                        "the decode itself: parseResponseExtra(&cctx.Extra)",
 	"udpClientConn.finishCall/Response.Extra/address taken":                     "the decode itself: parseResponseExtra(&cctx.Extra)",
